@@ -166,9 +166,32 @@ func watcherStress(args []string) {
 	defer tf.close()
 	rootDir, _ := os.MkdirTemp(os.Getenv("VERIF_SCRATCH_DIR"), "wroot")
 	defer os.RemoveAll(rootDir)
-	for i := 0; i < n; i++ {
+	nshort := argInt(args, "-shortbursts", 20)
+	nlong := argInt(args, "-bursts", 20)
+	blen := argInt(args, "-burstlen", 4000)
+	// long bursts: judged on the spot by the statement of C40 (no TLC: thousands of distinct directories)
+	reports, fetched := 0, 0
+	for i := 0; i < nlong; i++ {
+		rng := rand.New(rand.NewSource(seed*9000011 + int64(i)))
+		r := burstLong(rng, rootDir, blen)
+		reports += r.reports
+		fetched += r.fetched
+		if r.note == "overload" {
+			hlib.EmitRaw(map[string]any{"v": "overload", "detail": "burst: the consumer did not settle within the cap while the machine is overloaded"})
+			continue
+		}
+		if r.sig != "" {
+			hlib.EmitRaw(map[string]any{"v": "viol", "sig": r.sig, "detail": r.detail, "nt": r.shape, "src": "burst",
+				"input": map[string]any{"burst": i, "shape": r.shape}})
+			continue
+		}
+		hlib.Emit(hlib.Result{Idx: i, V: "ok", NT: r.shape, Input: map[string]any{"burst": r.shape},
+			Detail: fmt.Sprintf("%d directories reported, each fetched exactly once, consumer finished", r.reports)})
+	}
+	hlib.EmitRaw(map[string]any{"v": "summary", "burst_reports": reports, "burst_fetches": fetched, "bursts": nlong})
+	for i := 0; i < n+nshort; i++ {
 		rng := rand.New(rand.NewSource(seed*1000003 + int64(i)))
-		evs, shape, note := stressOne(rng, rootDir)
+		evs, shape, note := stressOne(rng, rootDir, i >= n)
 		if note == "overload" {
 			hlib.EmitRaw(map[string]any{"v": "overload", "detail": "goroutines did not settle within the cap while the machine is overloaded"})
 			continue
@@ -178,11 +201,16 @@ func watcherStress(args []string) {
 	}
 }
 
-func stressOne(rng *rand.Rand, rootDir string) (evs []map[string]any, shape string, note string) {
+// stressOne records one free-running history.  burst = short burst profile: 1-2 producers report
+// back-to-back against one consumer that fetches in a tight loop until it is blocked for good.
+func stressOne(rng *rand.Rand, rootDir string, burst bool) (evs []map[string]any, shape string, note string) {
 	c := watcher.NewChanges(rootDir)
 	log := &evlog{}
 	nP, nC := 1+rng.Intn(3), 1+rng.Intn(4)
 	withAux := rng.Intn(3) == 0
+	if burst {
+		nP, nC, withAux = 1+rng.Intn(2), 1, false
+	}
 	nfiles := 2 + rng.Intn(len(stdFiles)-1)
 	yieldMode := rng.Intn(4) // what the gate does
 	type pscript struct {
@@ -196,7 +224,11 @@ func stressOne(rng *rand.Rand, rootDir string) (evs []map[string]any, shape stri
 	for i := 0; i < nP; i++ {
 		prods = append(prods, &wproc{name: fmt.Sprintf("p%d", i+1), buf: log.buf()})
 		var s pscript
-		for k := 1 + rng.Intn(3); k > 0; k-- {
+		nrep := 1 + rng.Intn(3)
+		if burst {
+			nrep = 6 + rng.Intn(7)
+		}
+		for k := nrep; k > 0; k-- {
 			s.files = append(s.files, stdFiles[rng.Intn(nfiles)])
 			s.delDel = append(s.delDel, rng.Intn(5) == 0)
 			reports++
@@ -206,6 +238,9 @@ func stressOne(rng *rand.Rand, rootDir string) (evs []map[string]any, shape stri
 	for i := 0; i < nC; i++ {
 		cons = append(cons, &wproc{name: fmt.Sprintf("c%d", i+1), buf: log.buf()})
 		k := 1 + rng.Intn(3)
+		if burst {
+			k = 1 << 20 // until blocked for good
+		}
 		cscripts = append(cscripts, k)
 		fetches += k
 	}
@@ -237,6 +272,9 @@ func stressOne(rng *rand.Rand, rootDir string) (evs []map[string]any, shape stri
 	var stop atomic.Bool
 	delays := func() func() {
 		r := rand.New(rand.NewSource(rng.Int63()))
+		if burst {
+			return func() {}
+		}
 		return func() {
 			switch r.Intn(4) {
 			case 0:
@@ -396,6 +434,9 @@ func stressOne(rng *rand.Rand, rootDir string) (evs []map[string]any, shape stri
 	drain(c, cons)
 	evs = log.merged()
 	shape = fmt.Sprintf("P%d/C%d/r%d/f%d/aux%v/blocked%d", nP, nC, reports, fetches, withAux, len(names))
+	if burst {
+		shape = fmt.Sprintf("burst/P%d/r%d", nP, reports)
+	}
 	return evs, shape, note
 }
 
@@ -848,4 +889,141 @@ func (st *steer) finish(terminal bool) []map[string]any {
 	}
 	gates.Delete(st.c)
 	return evs
+}
+
+// ------------------------------------------------------------------ long bursts (S oracle)
+
+type burstResult struct {
+	shape, sig, detail, note string
+	reports, fetched         int
+}
+
+// burstLong: 1-2 producers report `total` distinct directories back-to-back, one consumer fetches in a
+// tight loop until it has them all.  The gate hook (after Unlock, before Broadcast) is a seeded yield.
+// Judged by the statement itself: every fetched directory was reported before (its FileChanged had
+// started), no directory twice (each is reported once), never ""; and once every producer has returned,
+// a consumer parked in cond.Wait while directories are still owed is a lost wake-up (nobody is left to
+// wake it: no timing involved; the 2 s cap is a courtesy).
+func burstLong(rng *rand.Rand, rootDir string, total int) (res burstResult) {
+	c := watcher.NewChanges(rootDir)
+	nP := 1 + rng.Intn(2)
+	total = total/2 + rng.Intn(total/2+1)
+	yieldMode := rng.Intn(5)
+	prodYield := rng.Intn(3)
+	res.shape = fmt.Sprintf("longburst/P%d/gate%d/py%d", nP, yieldMode, prodYield)
+	res.reports = total
+	var gctr atomic.Uint64
+	gates.Store(c, gateFn(func(dir string, n int) {
+		h := gctr.Add(1) * 0x9E3779B97F4A7C15 >> 40
+		switch yieldMode {
+		case 1:
+			runtime.Gosched()
+		case 2:
+			if h%4 == 0 {
+				runtime.Gosched()
+			}
+		case 3:
+			if h%8 == 0 {
+				spin(time.Duration(h%7) * time.Microsecond)
+			}
+		}
+	}))
+	defer gates.Delete(c)
+	started := make([]atomic.Bool, total)
+	var fetchedN = make([]int32, total)
+	cons := &wproc{name: "c1"}
+	var bad atomic.Value // first structural failure seen by the consumer
+	var nfetched atomic.Int64
+	var stop atomic.Bool
+	start := make(chan struct{})
+	var pwg sync.WaitGroup
+	for k := 0; k < nP; k++ {
+		pwg.Add(1)
+		go func(k int) {
+			defer pwg.Done()
+			<-start
+			for i := k; i < total; i += nP {
+				started[i].Store(true)
+				c.FileChanged(fmt.Sprintf("d%d/f.go", i))
+				if prodYield == 1 && i%16 == 0 {
+					runtime.Gosched()
+				}
+			}
+		}(k)
+	}
+	ready := make(chan struct{})
+	go func() {
+		cons.gid.Store(goid())
+		close(ready)
+		<-start
+		for int(nfetched.Load()) < total && !stop.Load() {
+			cons.inFetch.Store(true)
+			dir := c.Fetch(false)
+			cons.inFetch.Store(false)
+			if stop.Load() {
+				break
+			}
+			var i int
+			switch {
+			case dir == "":
+				bad.CompareAndSwap(nil, [2]string{"fetch-returned-empty-dir", "Fetch returned \"\""})
+			case len(dir) < 2 || dir[0] != 'd':
+				bad.CompareAndSwap(nil, [2]string{"fetch-returned-unreported-dir", "Fetch returned " + dir})
+			default:
+				if _, err := fmt.Sscanf(dir, "d%d", &i); err != nil || i < 0 || i >= total || !started[i].Load() {
+					bad.CompareAndSwap(nil, [2]string{"fetch-returned-unreported-dir", "Fetch returned " + dir + " before any FileChanged for it had started"})
+				} else if fetchedN[i]++; fetchedN[i] > 1 {
+					bad.CompareAndSwap(nil, [2]string{"fetch-returned-dir-not-pending", "Fetch returned " + dir + " a second time; it was reported once"})
+				}
+			}
+			nfetched.Add(1)
+			cons.rets.Add(1)
+		}
+		cons.finished.Store(true)
+	}()
+	<-ready
+	close(start)
+	pwg.Wait()
+	// all producers have returned: the consumer must finish; if it parks instead, something is lost
+	deadline := time.Now().Add(settleCap)
+	var parkedSince time.Time
+	for !cons.finished.Load() {
+		blocked, ok := settle([]*wproc{cons}, wakeCap)
+		if cons.finished.Load() {
+			break
+		}
+		if ok && len(blocked) == 1 {
+			if parkedSince.IsZero() {
+				parkedSince = time.Now()
+			}
+			if time.Since(parkedSince) >= wakeCap {
+				owed := total - int(nfetched.Load())
+				pending, _ := changedOf(c)
+				res.sig = "trace:fetcher-blocked-with-pending-dir"
+				res.detail = fmt.Sprintf("burst of %d distinct directories by %d producers: every FileChanged has returned, the only consumer has been parked in "+
+					"sync.Cond.Wait for %v after fetching %d; %d directories are owed, len(p.changed) = %d", total, nP, wakeCap, nfetched.Load(), owed, len(pending))
+				break
+			}
+			time.Sleep(20 * time.Millisecond)
+			continue
+		}
+		parkedSince = time.Time{}
+		if time.Now().After(deadline) {
+			if overloaded() {
+				res.note = "overload"
+			} else {
+				res.sig, res.detail = "burst-consumer-neither-done-nor-parked", "consumer still running 10 s after the last FileChanged returned"
+			}
+			break
+		}
+		runtime.Gosched()
+	}
+	res.fetched = int(nfetched.Load())
+	if b := bad.Load(); b != nil && res.sig == "" {
+		v := b.([2]string)
+		res.sig, res.detail = "trace:"+v[0], fmt.Sprintf("burst of %d distinct directories: %s", total, v[1])
+	}
+	stop.Store(true)
+	drain(c, []*wproc{cons})
+	return res
 }
